@@ -676,7 +676,8 @@ def codec_setup(eng):
     eng.ghost['no_faults'] = True
     x, y = (segstr.register_atom(eng, named(STR, n), SAMPLE_UNSAFE) for n in ('sample_x', 'sample_y'))
     eng.assume(z3.And(z3.Length(x.z) >= 1, z3.Length(y.z) >= 1, x.z != y.z, x.z != z3.StringVal('s1'), y.z != z3.StringVal('s1')))
-    table = {5: {'A': {'s1', x}}, 9: {'C': {x}, 'T': {y}}, 120: {'G': {'s1'}}}
+    # position 0 is the first base of the contig (VCF POS 1); -1 is fetchChromosome's placeholder entry and is written too
+    table = {0: {'T': {y}}, 5: {'A': {'s1', x}}, 9: {'C': {x}, 'T': {y}}, 120: {'G': {'s1'}}}
     eng.spec_env['TABLE'] = table
     eng.spec_env['RESOLVER'] = Builtin('RESOLVER', lambda e, a, k, n: Obj(
         'AlleleResolver', {'locationToAllele': a[0], 'region_start': None, 'region_end': None}, info=e.loader.classref(FA, 'AlleleResolver')))
@@ -710,12 +711,12 @@ return r.locationToAllele['chr1']
 ''',
     params={}, setup=codec_setup,
     ensures={
-        'same_positions_and_bases': 'sorted(list(result.keys())) == [5, 9, 120] and all(sorted(list(result[p].keys())) == sorted(list(TABLE[p].keys())) for p in TABLE)',
+        'same_positions_and_bases': 'sorted(list(result.keys())) == [0, 5, 9, 120] and all(sorted(list(result[p].keys())) == sorted(list(TABLE[p].keys())) for p in TABLE)',
         'same_samples_under_every_base':
             'all(len(result[p][b]) == len(TABLE[p][b]) and all((x in result[p][b]) for x in TABLE[p][b]) for p in TABLE for b in TABLE[p])',
     },
     raises={},
-    bounded='a table of 3 positions / 4 bases with 1-2 samples each; two symbolic sample names (no comma / whitespace), no region limits',
+    bounded='a table of 4 positions (the first base of the contig among them) / 5 bases with 1-2 samples each; two symbolic sample names (no comma / whitespace), no region limits',
     assumptions=['gzip text files: written lines are read back line by line (A4); sample names contain no comma, tab or other '
                  'whitespace (VCF sample names)'],
 )
